@@ -301,9 +301,12 @@ pub fn run(input: &mut dyn BufRead, out: &mut dyn Write, _args: &[String]) -> R 
                     let g = |c: &Vec<(huginn_net_db::Label, Vec<http::Signature>)>| -> Vec<Value> {
                         c.iter().enumerate().flat_map(|(li, (l, sigs))| sigs.iter().enumerate().map(move |(si, s)| json!({"li": li + 1, "si": si + 1, "label": label_to(l), "sig": http_sig_to(s), "text": s.to_string()})).collect::<Vec<_>>()).collect()
                     };
-                    json!({"tcp_request": f(&default_db.tcp_request.entries), "tcp_response": f(&default_db.tcp_response.entries),
-                           "http_request": g(&default_db.http_request.entries), "http_response": g(&default_db.http_response.entries),
-                           "mtu": default_db.mtu.iter().map(|(l, v)| json!({"label": l, "sigs": v})).collect::<Vec<_>>()})
+                    // "db": the text of a database to export instead of the bundled one
+                    let custom = v.get("db").and_then(|t| t.as_str()).map(|t| Database::from_str(t).expect("generated database must load"));
+                    let d = custom.as_ref().unwrap_or(&default_db);
+                    json!({"tcp_request": f(&d.tcp_request.entries), "tcp_response": f(&d.tcp_response.entries),
+                           "http_request": g(&d.http_request.entries), "http_response": g(&d.http_response.entries),
+                           "mtu": d.mtu.iter().map(|(l, v)| json!({"label": l, "sigs": v})).collect::<Vec<_>>()})
                 }
                 "score_table" => {
                     json!({"tcp": score_breaks(TcpMatchQuality::distance_to_score), "http": score_breaks(HttpMatchQuality::distance_to_score)})
